@@ -11,7 +11,7 @@ package node
 // restart (empty cache) before call r, for every r, and requires identical answers.
 //
 // Bounds: AveragePeriod shrunk to 4 (AverageRequired 2), heights 1..9, every rated/unrated pattern of the 9 heights
-// (split into the patterns without and with unrated heights), asset B first reported at height 1, 3 or 6, rates from a
+// (split into the gap-free chains of every length, with asset B first reported at any height, and the patterns with unrated heights, asset B from height 1, 3 or 6), rates from a
 // fixed pseudo-random table.
 
 import (
@@ -91,14 +91,21 @@ func confAverages(t *testing.T, gaps bool) {
 	histories := 0
 	var failures []string
 	for rated := uint(1); rated < 1<<confAvgN; rated++ {
-		full := rated == 1<<confAvgN-1
+		full := rated&(rated+1) == 0 // heights 1..L all rated, nothing after (a chain of length L without gaps)
 		if gaps == full {
 			continue
 		}
 		if gaps && rated&1 == 0 {
 			continue // start at height 1 (shifts of a history add nothing)
 		}
-		for _, bStart := range []int{1, 3, 6} {
+		starts := []int{1, 3, 6}
+		if !gaps {
+			starts = nil // the ordinary chain: the second asset may first be reported at any height
+			for b := 1; b <= confAvgN; b++ {
+				starts = append(starts, b)
+			}
+		}
+		for _, bStart := range starts {
 			heights := confAvgSetup(t, d, rated, bStart)
 			if len(heights) < 3 {
 				continue
